@@ -752,6 +752,125 @@ async fn run_c17(sc: &Value, attempt: u64, rec: Arc<Recorder>) -> Value {
     })
 }
 
-async fn run_c10(_sc: &Value, _rec: Arc<Recorder>) -> Value {
-    json!({"comp":"life","ev":"end","hit":false,"todo":true})
+/// C10: one configuration of the lattice: connect, one data-channel message and one RTP packet per
+/// media kind in each direction, then close and release.
+async fn run_c10(sc: &Value, rec: Arc<Recorder>) -> Value {
+    let cfg = PairCfg::from_json(&sc["cfg"]);
+    let base_tasks = alive_tasks();
+    let base_socks = socket_count();
+    let connect_bound = Duration::from_secs(sc.get("connect_s").and_then(|v| v.as_u64()).unwrap_or(15));
+    let pair = Pair::new(&cfg);
+    let mut notes: Vec<String> = vec![];
+    let t0 = Instant::now();
+    let mut signal_ok = true;
+    if let Err(e) = pair.create_dc() {
+        notes.push(e);
+        signal_ok = false;
+    }
+    if signal_ok {
+        match tokio::time::timeout(Duration::from_secs(20), pair.signal()).await {
+            Ok(Ok(())) => {}
+            Ok(Err(e)) => {
+                notes.push(e);
+                signal_ok = false;
+            }
+            Err(_) => {
+                notes.push("signalling did not finish within 20 s".into());
+                signal_ok = false;
+            }
+        }
+    }
+    log("life", "-", "signalled", json!({"ok": signal_ok}));
+    let connected = signal_ok && wait_until(connect_bound, || pair.both_connected()).await;
+    let connect_ms = t0.elapsed().as_millis() as u64;
+    log("life", "-", "connected", json!({"ok": connected, "ms": connect_ms,
+        "a": format!("{:?}", pair.a.peer_state().unwrap()), "b": format!("{:?}", pair.b.peer_state().unwrap())}));
+
+    // data channel: one message per direction, compared byte for byte
+    let mut dc_ok = json!({"A": true, "B": true});
+    if cfg.dc {
+        let open = connected && wait_until(Duration::from_secs(10), || pair.both_dc_open()).await;
+        if !open {
+            notes.push("data channel not open on both sides within 10 s".into());
+        }
+        for (from, to) in [(&pair.a, &pair.b), (&pair.b, &pair.a)] {
+            let msg = format!("c10-dc-from-{}-{}", from.label, sc["id"]).into_bytes();
+            let mut ok = false;
+            if open {
+                if let Some(pc) = from.try_pc() {
+                    let id = from.dc.lock().as_ref().map(|d| d.id).unwrap_or(0);
+                    log("app", &from.label, "dc_send", json!({"len": msg.len(), "h": rustrtc::verif::hash32(&msg)}));
+                    match tokio::time::timeout(Duration::from_secs(5), pc.send_data(id, &msg)).await {
+                        Ok(Ok(())) => {
+                            ok = wait_until(Duration::from_secs(5), || to.dc_msgs.lock().iter().any(|m| *m == msg)).await;
+                        }
+                        Ok(Err(e)) => notes.push(format!("send_data {}: {e}", from.label)),
+                        Err(_) => notes.push(format!("send_data {} did not return", from.label)),
+                    }
+                }
+            }
+            log("life", &to.label, "dc_delivery", json!({"ok": ok}));
+            dc_ok[to.label.as_str()] = json!(ok);
+        }
+    }
+
+    // media: per kind and direction, frames are sent until one arrives; its payload must be one that was sent
+    let mut rtp_ok = json!({});
+    for (on, kind, kname) in [(cfg.audio, rustrtc::MediaKind::Audio, "Audio"), (cfg.video, rustrtc::MediaKind::Video, "Video")] {
+        if !on {
+            continue;
+        }
+        for (from, to) in [(&pair.a, &pair.b), (&pair.b, &pair.a)] {
+            let mut sent: Vec<Vec<u8>> = vec![];
+            let mut ok = false;
+            let mut intact = true;
+            if connected {
+                let before = to.rtp_rx.lock().iter().filter(|(k, _)| k == kname).count();
+                let t1 = Instant::now();
+                let mut i = 0u32;
+                while t1.elapsed() < Duration::from_secs(6) {
+                    let payload = format!("c10-{}-{}-{}-{:04}-padpadpadpad", kname, from.label, sc["id"], i).into_bytes();
+                    from.send_media(kind, &payload, 1000 + i * 960);
+                    sent.push(payload);
+                    i += 1;
+                    tokio::time::sleep(Duration::from_millis(20)).await;
+                    let got: Vec<Vec<u8>> = to.rtp_rx.lock().iter().filter(|(k, _)| k == kname).skip(before).map(|(_, d)| d.clone()).collect();
+                    if !got.is_empty() {
+                        ok = true;
+                        intact = got.iter().all(|g| sent.iter().any(|s| s == g));
+                        break;
+                    }
+                }
+            }
+            log("life", &to.label, "rtp_delivery", json!({"kind": kname, "ok": ok, "intact": intact, "sent": sent.len()}));
+            rtp_ok[format!("{}{}", kname, to.label)] = json!(ok && intact);
+        }
+    }
+
+    quiesce(Duration::from_millis(100), Duration::from_secs(2)).await;
+    let peer_a = format!("{:?}", pair.a.peer_state().unwrap());
+    let peer_b = format!("{:?}", pair.b.peer_state().unwrap());
+    let reason_a = pair.a.reason().to_string();
+    let reason_b = pair.b.reason().to_string();
+    log("life", "-", "closing", json!({}));
+    pair.a.close();
+    pair.b.close();
+    quiesce(Duration::from_millis(100), Duration::from_secs(2)).await;
+    pair.a.release_aux();
+    pair.b.release_aux();
+    pair.a.drop_pc();
+    pair.b.drop_pc();
+    drop(pair);
+    let released = wait_until(Duration::from_secs(10), || alive_tasks() <= base_tasks && socket_count() <= base_socks).await;
+    log("life", "-", "done", json!({}));
+    rec.drain();
+    let all_dc = dc_ok["A"] == true && dc_ok["B"] == true;
+    let all_rtp = rtp_ok.as_object().map(|m| m.values().all(|v| v == true)).unwrap_or(true);
+    json!({
+        "comp": "life", "ev": "end", "kind": "c10", "id": sc["id"], "hit": true, "cfg": cfg.to_json(),
+        "signal_ok": signal_ok, "connected": connected, "connect_ms": connect_ms,
+        "peer_a": peer_a, "peer_b": peer_b, "reason_a": reason_a, "reason_b": reason_b,
+        "dc_ok": dc_ok, "rtp_ok": rtp_ok, "all_dc": all_dc, "all_rtp": all_rtp,
+        "released": released, "notes": notes,
+    })
 }
